@@ -48,7 +48,7 @@ func c16Render(c c16Case, variant int, rnd *rand.Rand) string {
 	for _, ch := range []byte(c.key()) {
 		kh = (kh*31 + int(ch)) & 0xffff
 	}
-	deco := ((variant >> 2) + kh) % 9
+	deco := ((variant >> 2) + kh) % 10
 	party := func(p c16Party, other bool) string {
 		isSIP := strings.HasPrefix(p.uri, "sip:") || strings.HasPrefix(p.uri, "sips:")
 		uri := p.uri
@@ -71,6 +71,9 @@ func c16Render(c c16Case, variant int, rnd *rand.Rand) string {
 				uri += ";x=1?Subject=hi"
 			}
 			return "Bob <" + uri + ">;extra=1" + tagp + ";other"
+		case 9:
+			// a header parameter whose value is a quoted string, after the URI
+			return "\"Front Desk\" <" + uri + ">;x-site=\"north\"" + tagp
 		case 8:
 			// many header parameters, the tag not among the first ones
 			return "<" + uri + ">;a=1;b=2;c;d=4" + tagp + ";e=5;f"
@@ -149,8 +152,17 @@ type c16Monitor struct {
 }
 
 func TestVerifC16(t *testing.T) {
+	// the process also runs a service whose host table gives the hosts of these URIs an address
+	// (two of the names the same one): what a name resolves to is no part of a dialog's identity
+	{
+		res := NewPreConfigHostResolver()
+		for _, h := range []string{"h", "g", "H", "example.com", "ims.mnc001.mcc001.3gppnetwork.org"} {
+			res.AddHostIP(h, "192.0.2.1")
+		}
+		NewProxy("c16.verif.test", 1200, "127.0.0.1", false, NewPreConfigRoute(), res, NewSelfLearnRoute(), false, false)
+	}
 	run := ev.New("C16", "exploration",
-		"all assignments of (Call-ID, two tags, two URIs) over small alphabets (equal URIs, equal tags, '-' values included) x orientation x request (10 methods) / response (11 status codes incl. 100 and 1xx) x 9 decorations (display names, URI parameters, URI headers - also with a further '?' in their value -, header parameters, bare addr-spec) x 4 header-name spellings, users that differ only inside a %HH escape, a host written with capitals, plus random long identifiers; "+
+		"all assignments of (Call-ID, two tags, two URIs) over small alphabets (equal URIs, equal tags, '-' values included) x orientation x request (10 methods) / response (11 status codes incl. 100 and 1xx) x 10 decorations (display names, URI parameters, URI headers - also with a further '?' in their value -, header parameters, bare addr-spec) x 4 header-name spellings, users that differ only inside a %HH escape, a host written with capitals, plus random long identifiers; "+
 			"monitor: identifier <-> canonical key must be a bijection and tag-less messages must yield no identifier; distinct = distinct canonical keys")
 	// (values whose concatenations coincide - "a"+"11" / "a1"+"1", "sip:h"+"21" / "sip:h2"+"1" -
 	// are there for identifiers that lose a boundary between their parts)
